@@ -3,7 +3,8 @@
 Decides cancellation safety of Orderer::next under the E5 model: after the take event (completion of
 the commit of the transaction that executed take_next_ready) no suspension point may follow before
 the item is returned.  Dropping the future before the commit is harmless (the permit's drop rolls the
-in_queue flag back — C10 rule 3).
+in_queue flag back — C10 rule 3).  C12.4: every call of `next` looks at the ready queue before it can wait for
+the notification (a consumed wake-up must not be the only way to learn about a released item).
 """
 from mir import take_events, held_yields, sem_calls, calls_to, selects
 
@@ -52,6 +53,23 @@ def run(ctx):
                and b.dominates(take[0].done_bb, commit[0].bb),
                "take_next_ready must be bracketed by begin .. commit so that dropping the future before the "
                "commit rolls the queue flag back", site=take[0].loc())
+    # C12.4 check-before-wait: a notification permit is consumed by `notified().await`; if the future is then dropped
+    # before the ready queue was looked at, the wake-up is gone and a later `next` waits although an item is ready.
+    # Safe shape: every call of `next` looks at the queue (take) before it can wait for the notification.
+    waits = [c for c in sem_calls(b) if c.awaited and c.is_("tokio::sync::notify::Notify::notified")]
+    if not waits:
+        waits = [c for c in sem_calls(b) if c.is_("tokio::sync::notify::Notify::notified")]
+    ctx.floor("C12.4", "waits on the ready notification in Orderer::next", len(waits), 1)
+    take_bbs = {c.bb for c in take}
+    for w in waits:
+        wait_bb = w.aw.ready_bb if getattr(w, "aw", None) is not None and w.aw.ready_bb is not None else w.bb
+        # the block where the wait can suspend: first yield reachable from the creation of the Notified future
+        ok = bool(take_bbs) and w.bb not in b.reachable(0, avoid=take_bbs)
+        ctx.ob("C12.4", "the ready queue is checked before `next` waits for a notification", ok,
+               "`Orderer::next` can reach `notify.notified().await` without having looked at the ready queue in this call "
+               "(take_next_ready): a wake-up consumed by a `next` future that is dropped afterwards (the buffered layer does "
+               "that whenever input arrives first) is lost, and the following `next` waits although a released item is ready",
+               site=w.loc(), key="C12.4:wait-before-check")
     # the consumer that cancels: Buffer::new polls processor.next() inside select!
     bufs = [x for x in ctx.prog.all_bodies(kind="coroutine", crate="p2panda_stream")
             if x.root == "p2panda_stream::processors::buffered::Buffer::new"]
